@@ -398,7 +398,12 @@ class World(object):
             ev.dbcalls += 1
         self.point_no += 1
         self.count("db_calls")
-        if self.death_at is not None and ev is not None and ev.kind == "send" and ev.dbcalls == self.death_at:
+        if self.death_at is not None and ev is not None and ev.kind == "send" and db._sim_name == "channel":
+            # (counted on the channel database only, so that the same step dies at the same place
+            # whether or not a usage database is configured)
+            ev.notes["_chan_calls"] = ev.notes.get("_chan_calls", 0) + 1
+        if self.death_at is not None and ev is not None and ev.kind == "send" and db._sim_name == "channel" \
+                and ev.notes.get("_chan_calls") == self.death_at:
             self.death_at = None
             self.dead_now = True
             self.count("fault_crash_mid_command")
@@ -750,7 +755,7 @@ class World(object):
                                      "frame_no": len(self.cur.frames) - 1})
 
     # ---------------------------------------------------------------- sends
-    def send(self, cid, msgs, step=None, seg=None, kind="send", raw=None, wire=None):
+    def send(self, cid, msgs, step=None, seg=None, kind="send", raw=None, wire=None, gap=None):
         """deliver one or several commands of connection cid to the server.
         msgs: list of JSON-able objects (one websocket text frame each), all in
         one TCP segment unless seg (list of cut offsets as fractions) splits it."""
@@ -774,6 +779,8 @@ class World(object):
             ev.notes["noop"] = "connection not usable"
             self.end()
             return ev
+        if len(msgs) != 1 or c.held:
+            gap = None        # (time passes only inside a command that travels alone)
         if wire:
             self.count("fault_ws_fragmented" if wire.get("frag") else "fault_ws_ping")
             data = c.held + b"".join(wf.encode_text_wire(m, c.mask, wire) for m in msgs)
@@ -787,6 +794,18 @@ class World(object):
             pos = 0
             for cut in cuts + [len(data)]:
                 if cut > pos:
+                    if pos and gap:
+                        # a slow sender: time passes between two pieces of one command (never
+                        # across a timer, so that the command stays one event)
+                        r = self.reactor
+                        due = [x.getTime() for x in r.getDelayedCalls()]
+                        g = min([gap] + [t - r.seconds() - 0.001 for t in due])
+                        if g > 0:
+                            r.rightNow += g
+                            self.count("sim_seconds", g)
+                            self.count("fault_slow_sender")
+                            # the command takes effect when its last byte has arrived
+                            ev.t, ev.wall = self.now(), self.wall()
                     self._deliver(c, data[pos:cut])
                     pos = cut
         else:
